@@ -4,7 +4,7 @@
      Init => IndInv                       (--init=Init    --inv=IndInv --length=0)
      IndInv /\ Next => IndInv'            (--init=IndInit --inv=IndInv --length=1)
      IndInv => the C03 / C11 invariants   (--init=IndInit --inv=Props  --length=0)
-   for a fixed number of nodes N (6, and 10 in the thorough tier) but EVERY gate size, failure budget, number of attempts, clean set, foreign cache
+   for a fixed number of nodes N (6, and 10 in the thorough tier) but EVERY gate size (FlushProof.tla: a TLAPS proof for every N), failure budget, number of attempts, clean set, foreign cache
    contents, cache on/off, reader on/off - and, being inductive, from every state that satisfies IndInv, reachable within
    TLC's bounds or not. *)
 EXTENDS Flush
@@ -44,47 +44,54 @@ TypeOK ==
   /\ published \in SUBSET (Nodes \X Tags)
   /\ writtenAfterPub \in SUBSET Nodes
   /\ rpc \in {"idle", "got"}
-  /\ \E p \in Nodes \X Tags: rseen \in {<<>>, <<p>>}
+  /\ rseen = <<>> \/ \E p \in Nodes \X Tags: rseen = <<p>>
   /\ inPlaceEdit \in SUBSET Nodes
 
 Active == {n \in Nodes: wst[n] \in {"spawned", "storing", "stored"}}
 Disp(n) == chan = n \/ (dpc = "gate" /\ df = n) \/ wst[n] # "idle"      \* the write of n has been handed over
 DispAlive == IF dpc = "exit" THEN 0 ELSE 1
 
-IndInv ==
-  /\ TypeOK
-  \* what is in the store
+\* what is in the store
+InvStore ==
   /\ \A n \in Nodes: wst[n] = "stored" => n \in store
   /\ \A n \in Nodes: wst[n] = "done" => (n \in store \/ firstErr)
   /\ cache \subseteq store
   /\ \A n \in Nodes: (flags[n] \/ linkIsHash[n]) => n \in store
-  \* the wait group counts the dispatcher and the workers; the gate counts the workers (and the token the dispatcher keeps on exit)
+\* the wait group counts the dispatcher and the workers; the gate counts the workers (and the token the dispatcher keeps on exit)
+InvCount ==
   /\ wg = DispAlive + Cardinality(Active)
   /\ tokens = GateSize - Cardinality(Active) - (1 - DispAlive)
-  \* main's progress
+\* main's progress
+InvMain ==
   /\ mpc = "sent" => (cur <= N /\ ~flags[cur] /\ Disp(cur))
   /\ mpc \in {"closing", "returned"} => cur = N + 1
   /\ mpc \in {"visit", "sent", "closing"} => result = "none"
   /\ mpc = "returned" => result # "none"
   /\ result = "none" => \A n \in Nodes: n < cur => (flags[n] \/ n \in cache \/ Disp(n))
   /\ result = "ok" => Nodes \subseteq store
-  \* the channel and the dispatcher
+\* the channel and the dispatcher
+InvChan ==
   /\ chan = Closed => mpc = "closing"
   /\ (dpc = "gate" /\ df = Closed) => (mpc = "closing" /\ chan = None)
   /\ dpc = "exit" => (mpc \in {"closing", "returned"} /\ chan = None)
   /\ dpc = "gate" => df # None
-  \* a write is handed over once per attempt: in the channel, with the dispatcher, or with a worker
+  /\ mpc = "returned" => (wg = 0 /\ chan = None)
+\* a write is handed over once per attempt: in the channel, with the dispatcher, or with a worker
+InvOnce ==
   /\ \A n \in Nodes: wst[n] # "idle" => (n < cur \/ (n = cur /\ mpc = "sent"))
   /\ chan \in Nodes => (mpc = "sent" /\ chan = cur /\ wst[cur] = "idle" /\ ~(dpc = "gate" /\ df = cur))
   /\ (dpc = "gate" /\ df \in Nodes) => (wst[df] = "idle" /\ (df < cur \/ (df = cur /\ mpc = "sent")))
-  /\ mpc = "returned" => (wg = 0 /\ chan = None)
-  \* errors
+\* errors
+InvErr ==
   /\ failedNow => firstErr
   /\ (mpc = "returned" /\ firstErr) => result = "err"
-  \* publication
+\* publication
+InvPub ==
   /\ Variant = "copy" => \A p \in published: p[2] = "copy"
   /\ Variant = "copy" => (writtenAfterPub = {} /\ inPlaceEdit = {})
   /\ rpc = "got" => (Len(rseen) = 1 /\ (Variant = "copy" => rseen[1][2] = "copy"))
+
+IndInv == TypeOK /\ InvStore /\ InvCount /\ InvMain /\ InvChan /\ InvOnce /\ InvErr /\ InvPub
 
 IndInit == IndInv
 
